@@ -249,6 +249,14 @@ def run_cell(cell, rec, seed):
                 S_cf = A @ A.T + (Ak * El[None]) @ Ak.T + M @ tp.Sigma[r] @ M.T
                 rec.close("quadrature of condition_on_x agrees with closed form", Sy[r], S_cf,
                           ns=ns_S[r], tol_rel=1e-7, detail=info, mech=f"oracle-cross-check:{ak}")
+        if t.get("bystander") is not None:
+            # another model of the same class and shapes transforms the very same p(x) first
+            try:
+                t.bystander.affine_joint_transformation(p)
+                t.bystander.affine_marginal_transformation(p)
+                info = dict(info, bystander_used_same_prior=True)
+            except Exception:
+                rec.count("bystander_raises")
         m_ = lc.call(rec, "affine_marginal_transformation",
                      lambda: c.affine_marginal_transformation(p), info)
         if m_ is not None:
